@@ -233,6 +233,9 @@ def fam_simulate(rng, n, *, name="simulate_vs_spec", max_periods=3, agents=(1, 6
         if targets and rng.random() < 0.6:
             cand = target_candidates(m)
             w["additional_targets"] = rng.sample(cand, rng.randint(1, min(3, len(cand))))
+        if targets and "asum_utility" in c["_force"]:
+            # a target that is a function of scalars but not element-wise on whole columns: must be evaluated row by row
+            w["additional_targets"] = sorted(set(w.get("additional_targets", [])) | {"utility"})
         w["_n_agents"] = na
         wcases.append(w)
     ires = run_impl([wire(w) for w in wcases])
